@@ -82,6 +82,9 @@ def parse_report(out):
     drifts = re.findall(r"<< ?(\d+), (\d+), \"(\w+)\", \{([^}]*)\} ?>>", sets[0]) if sets else []
     panics = re.findall(r"<< ?(\d+), \"((?:[^\"\\]|\\.)*)\" ?>>", sets[1]) if len(sets) > 1 else []
     viol = re.findall(r"<< ?(\d+), (\d+), \"(\w+)\" ?>>", sets[2]) if len(sets) > 2 else []
+    for k, (s, found) in enumerate(zip(sets, (drifts, panics, viol))):
+        if s.replace(" ", "") != "{}" and len(found) == 0:
+            raise Inconclusive("cannot parse set %d of the TRACE-REPORT: %s" % (k, s[:300]))
     return {
         "lines": n,
         "drifts": [(int(a), int(b), c, d) for a, b, c, d in drifts],
